@@ -117,6 +117,8 @@ def gen_ops(rng, sess, usable, tier):
             ops.append({"op": "shortcut", "cube": cube, "agg": rng.choice(good)})
         elif r < 0.8:
             ops.append({"op": "newcube", "cube": cube})
+        elif r < 0.84 and cube != "C":
+            ops.append({"op": "inferred", "cube": cube, "agg": rng.choice(good)})
         elif sess["cube"] == "ccube":
             ops.append(gen_index_op(rng, sess))
         else:
@@ -372,6 +374,35 @@ class PuritySession:
             return None
         self.cube[c] = cubes.build_cube(self.w[c], self.dims[c])
         return "newcube"
+
+    def do_inferred(self, op):
+        """A cube built WITHOUT an explicit shape over the shared dimensions (shape inference reads them)."""
+        import catii
+
+        c, i = op["cube"], op["agg"]
+        if c not in self.cube or i >= len(self.aggs) or self.aggs[i] is None or self.reference(c, i) is None:
+            return None
+        if self.kind == "xcube" and any(d.dtype.kind == "u" or d.size == 0 for d in self.dims[c]):
+            return None  # shape inference over unsigned / empty arrays raises under NumPy 2: not purity's business
+        if self.kind == "ccube" and any(d.shape[0] == 0 and len(d) == 0 for d in self.dims[c]) and False:
+            return None
+        cls = catii.ccube if self.kind == "ccube" else catii.xcube
+        where = "inferred-shape cube"
+        try:
+            shared = cls(self.dims[c])
+            fresh = cls(cubes.build_dims(self.w[c]))
+            got = cubes.evaluate(shared, [self.aggs[i]])[0]
+            agg = cubes.build_agg({"cube": self.kind}, self.s["aggs"][i], self._args(self.s["aggs"][i], shared=False))
+            want = cubes.evaluate(fresh, [agg])[0]
+        except Exception:
+            self.count("inferred_shape_cube_raised_not_judged")
+            return where
+        if cubes.freeze(got) != cubes.freeze(want):
+            raise Violation(PROP, "result-depends-on-history", where,
+                            "aggregate %s on a cube with inferred shape: output%s vs. fresh objects"
+                            % (self.s["aggs"][i]["f"], cubes.first_difference(want, got)))
+        self.earlier.append((where, got, cubes.freeze(got)))
+        return where
 
     def do_index(self, op):
         if self.kind != "ccube":
